@@ -155,6 +155,7 @@ def gGhostStep (s : GSys) (g : GGhost) : GOp → GGhost
     match g.rpos[i]? with
     | some p => { g with rpos := g.rpos.eraseIdx i, upos := p :: g.upos }
     | none => g
+  | .abandon => g
   | .peek rand =>
     if s.vol.live = 0 then
       let c := (s.vol.getOrInit rand).live
@@ -500,6 +501,24 @@ theorem ginv_use {s : GSys} {g : GGhost} (h : GInv s g) (i : Nat) :
       · subst h1; exact not_mem_eraseIdx_of_nodup _ _ hrn hp hq
       · exact hdj q (mem_of_mem_eraseIdx_sub hq) h1
 
+theorem ginv_abandon {s : GSys} {g : GGhost} (h : GInv s g) :
+    GInv (gStep s .abandon) (gGhostStep s g .abandon) := by
+  simp only [gStep, gGhostStep]
+  split
+  · rename_i v hin
+    obtain ⟨h1, h2, h3, h4, h5, h6, h7, h8, h9, h10, h11, h12, h13⟩ := h
+    have hi := h5 v none hin
+    refine ⟨?_, h2, ?_, ?_, ?_, h6, h7, h8, ?_, ?_, h11, h12, h13⟩
+    · intro hl; exact absurd hl hi.1
+    · intro hd; exact absurd hd (hi.2.2.2.2 rfl).1
+    · intro d hd
+      obtain ⟨a, b, c, d', e⟩ := h4 d hd
+      refine ⟨a, b, c, d', fun _ => e (by intro v' b' hh; rw [hin] at hh; simp at hh)⟩
+    · intro v' ob hh; simp at hh
+    · intro p hp; have := h9 p hp; simp only [infl1] at this ⊢; rw [hin] at this; simp only at this; omega
+    · intro p hp; have := h10 p hp; simp only [infl1] at this ⊢; rw [hin] at this; simp only at this; omega
+  · exact h
+
 theorem ginv_peek {s : GSys} {g : GGhost} (h : GInv s g) (rand : Nat) :
     GInv (gStep s (.peek rand)) (gGhostStep s g (.peek rand)) := by
   have hE := gEpoch_eq
@@ -587,6 +606,7 @@ theorem ginv_step {s : GSys} {g : GGhost} (h : GInv s g) (op : GOp) :
   | store => exact ginv_store h
   | stash => exact ginv_stash h
   | use i => exact ginv_use h i
+  | abandon => exact ginv_abandon h
   | peek r => exact ginv_peek h r
   | crash => exact ginv_crash h
 
@@ -624,6 +644,7 @@ theorem gspent_step (s : GSys) (g : GGhost) (op : GOp) :
   | store => simp only [gGhostStep, gCost]; split <;> (try simp only) <;> omega
   | stash => simp only [gGhostStep, gCost]; split <;> (try simp only) <;> omega
   | use i => simp only [gGhostStep, gCost]; split <;> (try simp only) <;> omega
+  | abandon => simp only [gGhostStep, gCost]; omega
   | peek r => simp only [gGhostStep, gCost]; split <;> (try simp only) <;> omega
   | crash => simp only [gGhostStep, gCost]; split <;> simp only <;> omega
 
